@@ -8,7 +8,7 @@ from mc.runner import add_violation, h64, new_result
 PROPERTY = "C02"
 LEVEL = "exploration"
 RULE = (
-    "three completely enumerated sub-spaces: (A) all trees with <= k operators over 3 plain detection names, (B) all trees "
+    "four completely enumerated sub-spaces: (D) the same selector condition text parsed consecutively against 4 different detection-name sets (the parse cache is keyed by text); (A) all trees with <= k operators over 3 plain detection names, (B) all trees "
     "with <= k2 operators over the keyword-like name pool, (C) per detection-name set all trees with <= k3 operators over "
     "selectors (quantifier x pattern) and one name; each tree printed in several spellings (minimal parentheses, full "
     "parentheses, associativity-flattened, extra blanks/tabs); SigmaCondition(text).parsed is evaluated for all 2^n "
@@ -191,6 +191,19 @@ def space(tier):
                 yield "C", names, t
 
 
+D_NAMESETS = [["sel", "sel_a", "flt_a", "_u"], ["sel", "sel1", "x_a"], ["sel", "sel_b", "sel_c", "_sel_d", "y_a"], ["sel", "other_a", "_v"]]
+D_PATTERNS = ["them", "sel*", "*_a", "_*", "*"]
+
+
+def space_D(tier):
+    """the SAME condition text parsed back-to-back against different detection-name sets (parse results are cached per text)"""
+    leaves = [("n", "sel")] + [("s", q, p) for q in ("1 of", "all of") for p in D_PATTERNS]
+    for t in T.trees_upto(BOUNDS[tier]["kC"], leaves):
+        for names in D_NAMESETS:
+            if all(l[0] == "n" or ref_selector_matches(l[2], names) for l in T.leaves_of(t)):
+                yield "D", names, t
+
+
 NSH = 64
 
 
@@ -202,6 +215,13 @@ def run_shard(shard, tier, seed):
     res = new_result()
     for idx, (sub, names, t) in enumerate(space(tier)):
         if idx % NSH == shard:
+            check_tree(res, t, names, sub)
+    # sub-space D is sharded by tree so that all name sets of one text are parsed consecutively in one process
+    last, n = None, -1
+    for sub, names, t in space_D(tier):
+        if t is not last:
+            last, n = t, n + 1
+        if n % NSH == shard:
             check_tree(res, t, names, sub)
     return res
 
